@@ -147,6 +147,9 @@ def syndrome_lookup(ctx, vcfg):
     k, n = enc.generator_matrix.shape
     t, d, src = capability(enc, cfg)
     G = SP.int_matrix(enc.generator_matrix)
+    # CyclicCodeEncoder.minimum_distance() returns the weight of g on its k > 12 branch (known finding of C03): t derived from it is not
+    # a capability of the code; the clauses are named after that branch so that the finding is tied to it and to nothing else
+    sfx = ".cyclic_k_gt_12_advertises_weight_of_g" if cfg.family in ("cyclic", "cyclic_h") and k > 12 else ""
     if name == "ml":
         y = ctx.bits("y", (n,))
         out = ctx.call(dec.forward, y)
@@ -163,7 +166,7 @@ def syndrome_lookup(ctx, vcfg):
         out = ctx.call(dec.forward, r)  # the default call (no error patterns requested) takes its own return path
         ctx.ensure("returns", out.ok and isinstance(out.value, torch.Tensor), note=repr(out.exc) if not out.ok else f"t={t} from {src}")
         if out.ok and isinstance(out.value, torch.Tensor):
-            ctx.ensure("corrects_up_to_t", SP.shape_is(out.value, lead + (k,)) and SP.all_eq(P(out.value), P(m)), note=f"t={t} from {src}")
+            ctx.ensure("corrects_up_to_t" + sfx, SP.shape_is(out.value, lead + (k,)) and SP.all_eq(P(out.value), P(m)), note=f"t={t} from {src}")
             ctx.ensure("input_unmodified", out.unmodified)
         return
     out = ctx.call(dec.forward, r, return_errors=True)
@@ -171,8 +174,8 @@ def syndrome_lookup(ctx, vcfg):
     if not out.ok:
         return
     decoded, errors = out.value
-    ctx.ensure("corrects_up_to_t", SP.shape_is(decoded, lead + (nb * k,)) and SP.all_eq(P(decoded), P(m)), note=f"t={t} from {src}")
-    ctx.ensure("reports_error_pattern", SP.shape_is(errors, lead + (nb * n,)) and SP.all_eq(P(errors), P(e)))
+    ctx.ensure("corrects_up_to_t" + sfx, SP.shape_is(decoded, lead + (nb * k,)) and SP.all_eq(P(decoded), P(m)), note=f"t={t} from {src}")
+    ctx.ensure("reports_error_pattern" + sfx, SP.shape_is(errors, lead + (nb * n,)) and SP.all_eq(P(errors), P(e)))
     ctx.ensure("input_unmodified", out.unmodified)
 
 
@@ -207,7 +210,9 @@ def syndrome_table(cfg):
 
 # ---------------------------------------------------------------------------------------- brute force ML
 def _bf_cfgs(tier):
-    kmax, nmax = (4, 9) if tier == "quick" else (6, 16)
+    # thorough: n <= 12 (the 2^n-word minimum-distance clause and the two-row / two-block layouts took 17-20 minutes per configuration
+    # at n = 15 and one generic 13-column code stayed undecided inside its budget)
+    kmax, nmax = (4, 9) if tier == "quick" else (6, 12)
     out = []
     for c in codes.catalogue(tier):
         enc, _ = codes.try_build(c)
